@@ -86,7 +86,8 @@ DeriveT(i, kind) ==
                 [] kind = "mid"  -> SubSeq(o.idx, 2, n - 1)
                 [] kind = "rc"   -> Reverse(o.idx)
                 [] OTHER -> o.idx
-    IN /\ kind \in Derives
+    IN /\ Len(hist) < MaxDepth
+       /\ kind \in Derives
        /\ (kind \in {"head", "tail"} => n >= 2)
        /\ (kind = "mid" => n >= 3)
        /\ (kind = "rna" => o.mol = "dna")
@@ -104,7 +105,8 @@ AddT(i, s, e, strand) ==
         p0 == SetMin(RangeOf(o.idx))
         rec == [name |-> IF NAdds = 0 THEN "f1" ELSE IF NAdds = 1 THEN "f2" ELSE "f3",
                 lo |-> p0 + s, hi |-> p0 + e, strand |-> strand]
-    IN /\ NAdds < MaxAdds
+    IN /\ Len(hist) < MaxDepth
+       /\ NAdds < MaxAdds
        /\ 0 <= s /\ s < e /\ e <= n
        /\ dbs' = [dbs EXCEPT ![o.db] = Append(@, rec)]
        /\ hist' = Append(hist, <<"Add", i - 1, s, e, strand, rec.name>>)
